@@ -228,6 +228,15 @@ Proof.
     replace (cnt + 1 + Z.of_nat (length ids)) with (cnt + Z.of_nat (S (length ids))) by lia. reflexivity.
 Qed.
 
+Lemma NoDup_snoc {A} (l : list A) x : NoDup l -> ~ In x l -> NoDup (l ++ [x]).
+Proof.
+  induction l as [|y l IH]; intros Hn Hx; cbn [app].
+  - constructor; [intros []|constructor].
+  - inversion Hn as [|? ? Hy Hn']; subst. constructor.
+    + rewrite in_app_iff. cbn [In]. intros [H|[H|[]]]; [exact (Hy H)|]. apply Hx. now left.
+    + apply IH; [exact Hn'|]. intros H. apply Hx. now right.
+Qed.
+
 Lemma index_entries_cons k ids items :
   index_entries ((k, ids) :: items) = map (fun i => (k, i)) ids ++ index_entries items.
 Proof. reflexivity. Qed.
@@ -278,7 +287,7 @@ Proof.
           + right. left. now symmetry. }
       assert (Hn : NoDup seen -> NoDup seen').
       { intros Hnd. unfold seen'. destruct (existsb (beq q) seen) eqn:X; [exact Hnd|].
-        apply NoDup_app_single. split; [exact Hnd|]. intros Hq.
+        apply NoDup_snoc; [exact Hnd|]. intros Hq.
         assert (existsb (beq q) seen = true) as Y
           by (apply existsb_exists; exists q; split; [exact Hq|apply beq_refl]).
         rewrite Y in X. discriminate X. }
